@@ -1,6 +1,7 @@
 import Ivy.L1.ProofsC04
 import Ivy.L1.ProofsReach
 import Ivy.Mon.C07
+import Ivy.Mon.TmoContract
 /-!
 # C07 (timeout clause) — the timeout-progress oracle `Mon.C07.tmoVerdict` is sound for the L1 machine
 
@@ -28,49 +29,34 @@ clock is already part of `envOk`; the proof does not use it.)
 that trace (`Ivy.Props.C07tmo.day_cap_rejected`).  `noDayCap evs` says that no `Out.wait _ (.ms v) …` with
 `v ≥ 86 400 000` occurs in the trace.
 
+## The corrected oracle (`tmoStepC`, `tmoCapVerdict`)
+
+`tmoStepC` is `Mon.C07.tmoStep` with one change (the proposed edit): for `Out.wait _ (.ms v) …` the flag `sleep` is
+`v > 0 ∧ v < 86 400 000` instead of `v > 0`.  The two coincide on every record that is not a millisecond wait at the
+cap (`tmoStepC_eq`, `tmoFold_eq`).  All the work is done for `tmoStepC`; the statements about `tmoStep` follow on
+traces that satisfy `noDayCap`.
+
 ## Result
 
-`tmo_run` / `tmo_accepts`: every `Exec` trace from an initial state that satisfies `tmoContract` and `noDayCap`
-is accepted by `tmoVerdict`; moreover the counter `zeros` of the oracle never exceeds 2, and 2 is reached only
-through the `ppoll → poll` fallback after `ENOSYS` (which re-reads the clock between two polls).
+`tmo_run`: from any state related to the oracle state by `Inv`, every continuation that keeps the contract is
+accepted.  `Inv` says: (`clock`) the contract's `last` is the machine's cached `time`; (`owed`) after a sleep came
+back empty the machine is on the straight path `dispatchNext → mainTop → clock_gettime → collect → popTimer` and some
+timer on the heap expires at or before the contract's `due`, so `collect` finds it (`OwedAt`); (`zs`) after an empty
+zero-timeout poll no user code runs until the next callback, the task list is empty when the next timeout is
+computed, and either the heap is empty, or the clock was read after the poll and nothing is due at that value, or
+kernel-timer mode persists — so the next timeout is not zero (`ZAt`), except once through the `ppoll → poll` fallback
+after `ENOSYS`, which reads the clock again.  Hence `zeros ≤ 2` (`tmo_cap_bound`, `tmo_bound`) and `zeros ≤ 1` on
+traces without `ENOSYS` (`tmo_cap_bound_one`, `tmo_bound_one`; the parameter `fb` of `Inv`).
+The machine invariant of `ProofsC04` (`Good`: heap invariant, normalised non-negative clock and expiries) is carried
+along; it is only lost when the machine dies on `iv_fatal` / a fault, after which nothing is emitted.
 -/
 namespace Ivy.L1.ProofsC07tmo
 open Ivy.L1 Ivy.Heap Ivy.L1.ProofsC04
 open Ivy.Mon.C04 (M ns)
-open Ivy.Mon.C07 (TmoSt tmoStep tmoVerdict)
+open Ivy.Mon.C07 (TmoSt tmoStep tmoVerdict tmoStepC tmoCapVerdict)
 
 set_option linter.unusedSimpArgs false
 set_option linter.unusedVariables false
-
-/-! ## the timeout contract -/
-
-structure CSt where
-  last : Int := 0
-  pend : Option Int := none
-  due : Option Int := none
-
-/-- the instant (ns) at which timeout `to`, computed from clock value `last`, runs out; `none` for
-unbounded waits and zero-timeout polls -/
-def toDeadline (last : Int) : Timeout → Option Int
-  | .ns v => if v > 0 then some (last + v) else none
-  | .ms v => if v > 0 then some (last + v * 1000000) else none
-  | .inf => none
-
-def ctrStep (c : CSt) (e : Ev) : Except String CSt :=
-  match e with
-  | .out (.wait _ to ..) => .ok { c with pend := toDeadline c.last to }
-  | .inp (.wret (.events l)) => .ok { c with pend := none, due := if l.isEmpty then c.pend else none }
-  | .inp (.wret _) => .ok { c with pend := none }
-  | .inp (.time t) =>
-    match c.due with
-    | some d =>
-      if d ≤ ns t then .ok { c with last := ns t, due := none }
-      else .error "the clock did not advance by the timeout of a wait that timed out"
-    | none => .ok { c with last := ns t }
-  | _ => .ok c
-
-/-- the timeout contract over a trace -/
-def tmoContract (evs : List Ev) : Bool := monOk ctrStep {} evs
 
 /-- no millisecond wait at (or beyond) the 24 h cap of `to_msec` -/
 def capOk : Ev → Bool
@@ -78,21 +64,6 @@ def capOk : Ev → Bool
   | _ => true
 
 def noDayCap (evs : List Ev) : Bool := evs.all capOk
-
-/-- PROPOSED EDIT of `Mon.C07.tmoStep` (the only change is the `.ms` case of `Out.wait`): a millisecond wait at the
-24 h cap of `to_msec` is not a sleep whose timeout running out owes a callback — the earliest timer may be further
-away than the cap.  It is treated like an unbounded wait. -/
-def tmoStepC (m : TmoSt) (e : Ev) : Except String TmoSt :=
-  match e with
-  | .out (.wait _ (.ms v) ..) =>
-    if m.owed then .error "timed-out wake-up without progress: the wait returned on its timeout, nothing was dispatched, and the loop waits again"
-    else .ok { m with sleep := decide (v > 0) && decide (v < 86400000), zero := decide (v = 0) }
-  | e => tmoStep m e
-
-def tmoCapVerdict (evs : List Ev) : Option String :=
-  match runMon tmoStepC {} evs with
-  | .ok _ => none
-  | .error e => some e
 
 /-- on a record that is not a millisecond wait at the cap the two oracles agree -/
 theorem tmoStepC_eq (m : TmoSt) (e : Ev) (h : capOk e = true) : tmoStepC m e = tmoStep m e := by
@@ -1526,16 +1497,23 @@ theorem dead_exec {s s' : St} {evs : List Ev} (h : Exec s evs s') (hd : s.pc = .
   | internal hpc _ _ => rw [hd] at hpc; cases hpc
   | input _ hi _ => simp [input, hd] at hi
 
+/-- no `ENOSYS` answer to a wait -/
+def noEnosysEv : Ev → Bool
+  | .inp (.wret .enosys) => false
+  | _ => true
+
+def noEnosys (evs : List Ev) : Bool := evs.all noEnosysEv
+
 /-- the oracle accepts every continuation from a state related to it, as long as the environment keeps the
-timeout contract -/
+timeout contract; `fb = false` additionally assumes that no wait is answered with `ENOSYS` and gives the bound 1 -/
 theorem tmo_run {s s' : St} {evs : List Ev} (h : Exec s evs s') :
-    ∀ (c c' : CSt) (m : TmoSt), m.zeros ≤ 2 → (s.pc = .dead ∨ ∃ μ, Good μ s ∧ Inv fb s c m) →
-      evs.foldlM ctrStep c = .ok c' →
-      ∃ m', evs.foldlM tmoStepC m = .ok m' ∧ m'.zeros ≤ 2 := by
+    ∀ (c c' : CSt) (m : TmoSt), Zb fb m.zeros → (s.pc = .dead ∨ ∃ μ, Good μ s ∧ Inv fb s c m) →
+      evs.foldlM ctrStep c = .ok c' → (fb = true ∨ noEnosys evs = true) →
+      ∃ m', evs.foldlM tmoStepC m = .ok m' ∧ Zb fb m'.zeros := by
   induction h with
-  | nil s => intro c c' m hz _ _; exact ⟨m, rfl, hz⟩
+  | nil s => intro c c' m hz _ _ _; exact ⟨m, rfl, hz⟩
   | @internal s s1 s2 b outs evs hpc hi hrest ih =>
-    intro c c' m hz hI hc
+    intro c c' m hz hI hc hfb
     rcases hI with hd | ⟨μ, g, I⟩
     · rw [hd] at hpc; cases hpc
     obtain ⟨c1, hc1, hc2⟩ := ctr_append hc
@@ -1550,32 +1528,51 @@ theorem tmo_run {s s' : St} {evs : List Ev} (h : Exec s evs s') :
         rcases this with hd | ⟨μ1, g1, _⟩
         · exact Or.inl hd
         · exact Or.inr ⟨μ1, g1, I1⟩
-    obtain ⟨m2, hm2, hz2⟩ := ih c1 c' m1 hz1 hI1' hc2
+    have hfb' : fb = true ∨ noEnosys evs = true := by
+      rcases hfb with h | h
+      · exact Or.inl h
+      · right
+        unfold noEnosys at h ⊢
+        rw [List.all_append, Bool.and_eq_true] at h
+        exact h.2
+    obtain ⟨m2, hm2, hz2⟩ := ih c1 c' m1 hz1 hI1' hc2 hfb'
     exact ⟨m2, tmo_append hm1 hm2, hz2⟩
   | @input s s1 s2 i outs evs henv hi hrest ih =>
-    intro c c' m hz hI hc
+    intro c c' m hz hI hc hfb
     rcases hI with hd | ⟨μ, g, I⟩
     · simp [input, hd] at hi
     have hc' : ((Ev.inp i :: outs.map Ev.out) ++ evs).foldlM ctrStep c = .ok c' := by simpa using hc
     obtain ⟨c1, hc1, hc2⟩ := ctr_append hc'
+    have hfbi : fb = true ∨ i ≠ .wret .enosys := by
+      rcases hfb with h | h
+      · exact Or.inl h
+      · right
+        rintro rfl
+        simp [noEnosys, noEnosysEv] at h
+    have hfb' : fb = true ∨ noEnosys evs = true := by
+      rcases hfb with h | h
+      · exact Or.inl h
+      · right
+        unfold noEnosys at h ⊢
+        simp only [List.all_cons, List.all_append, Bool.and_eq_true] at h
+        exact h.2.2
     rcases good_input g henv hi with hd | ⟨μ1, g1, ht⟩
     · -- the machine died: nothing follows
       have := dead_exec hrest hd.1
       subst this
-      have hp := input_post g I i hi (fun _ => hd.2)
+      have hp := input_post g I i hi (fun _ => hd.2) hfbi
       obtain ⟨m1, hm1, hz1, _⟩ := hp c1 hc1
       exact ⟨m1, by simpa using hm1, hz1⟩
-    · have hp := input_post g I i hi ht
+    · have hp := input_post g I i hi ht hfbi
       obtain ⟨m1, hm1, hz1, hI1⟩ := hp c1 hc1
       have hI1' : s1.pc = .dead ∨ ∃ μ, Good μ s1 ∧ Inv fb s1 c1 m1 := by
         rcases hI1 with hd | I1
         · exact Or.inl hd
         · exact Or.inr ⟨μ1, g1, I1⟩
-      obtain ⟨m2, hm2, hz2⟩ := ih c1 c' m1 hz1 hI1' hc2
+      obtain ⟨m2, hm2, hz2⟩ := ih c1 c' m1 hz1 hI1' hc2 hfb'
       refine ⟨m2, ?_, hz2⟩
       have := tmo_append hm1 hm2
       simpa using this
-
 
 theorem contract_ok {evs : List Ev} (hc : tmoContract evs = true) : ∃ c', evs.foldlM ctrStep {} = .ok c' := by
   unfold tmoContract monOk runMon at hc
@@ -1589,8 +1586,18 @@ theorem tmo_cap_bound (mt : Method) (ntimers : Nat) (timerfdAvail pwait2 : Bool)
     (h : Exec (St.init mt ntimers timerfdAvail pwait2) evs s') (hc : tmoContract evs = true) :
     ∃ m', runMon tmoStepC {} evs = .ok m' ∧ m'.zeros ≤ 2 := by
   obtain ⟨c', hc'⟩ := contract_ok hc
-  exact tmo_run h {} c' {} (by decide)
-    (Or.inr ⟨{}, good_init mt ntimers timerfdAvail pwait2, inv_init mt ntimers timerfdAvail pwait2⟩) hc'
+  obtain ⟨m', hm, hz⟩ := tmo_run (fb := true) h {} c' {} Zb.zero
+    (Or.inr ⟨{}, good_init mt ntimers timerfdAvail pwait2, inv_init mt ntimers timerfdAvail pwait2⟩) hc' (Or.inl rfl)
+  exact ⟨m', hm, hz.1⟩
+
+/-- … and never exceeds 1 on traces on which no wait is answered with `ENOSYS` -/
+theorem tmo_cap_bound_one (mt : Method) (ntimers : Nat) (timerfdAvail pwait2 : Bool) (evs : List Ev) (s' : St)
+    (h : Exec (St.init mt ntimers timerfdAvail pwait2) evs s') (hc : tmoContract evs = true)
+    (hne : noEnosys evs = true) : ∃ m', runMon tmoStepC {} evs = .ok m' ∧ m'.zeros ≤ 1 := by
+  obtain ⟨c', hc'⟩ := contract_ok hc
+  obtain ⟨m', hm, hz⟩ := tmo_run (fb := false) h {} c' {} Zb.zero
+    (Or.inr ⟨{}, good_init mt ntimers timerfdAvail pwait2, inv_init mt ntimers timerfdAvail pwait2⟩) hc' (Or.inr hne)
+  exact ⟨m', hm, hz.2 rfl⟩
 
 theorem tmo_cap_accepts (mt : Method) (ntimers : Nat) (timerfdAvail pwait2 : Bool) (evs : List Ev) (s' : St)
     (h : Exec (St.init mt ntimers timerfdAvail pwait2) evs s') (hc : tmoContract evs = true) :
@@ -1604,6 +1611,16 @@ theorem tmo_bound (mt : Method) (ntimers : Nat) (timerfdAvail pwait2 : Bool) (ev
     (h : Exec (St.init mt ntimers timerfdAvail pwait2) evs s') (hc : tmoContract evs = true)
     (hcap : noDayCap evs = true) : ∃ m', runMon tmoStep {} evs = .ok m' ∧ m'.zeros ≤ 2 := by
   obtain ⟨m', hm, hz⟩ := tmo_cap_bound mt ntimers timerfdAvail pwait2 evs s' h hc
+  refine ⟨m', ?_, hz⟩
+  unfold runMon at hm ⊢
+  rw [← tmoFold_eq evs {} hcap]
+  exact hm
+
+theorem tmo_bound_one (mt : Method) (ntimers : Nat) (timerfdAvail pwait2 : Bool) (evs : List Ev) (s' : St)
+    (h : Exec (St.init mt ntimers timerfdAvail pwait2) evs s') (hc : tmoContract evs = true)
+    (hcap : noDayCap evs = true) (hne : noEnosys evs = true) :
+    ∃ m', runMon tmoStep {} evs = .ok m' ∧ m'.zeros ≤ 1 := by
+  obtain ⟨m', hm, hz⟩ := tmo_cap_bound_one mt ntimers timerfdAvail pwait2 evs s' h hc hne
   refine ⟨m', ?_, hz⟩
   unfold runMon at hm ⊢
   rw [← tmoFold_eq evs {} hcap]
